@@ -150,12 +150,21 @@ impl Cleanable {
         // Try upgrading to see if the CleanerMap hasn't been deallocated
         let Some(cc) = self.cleaner_map.upgrade() else { return };
 
-        // Just return in case try_borrow_mut fails
-        let Ok(mut map) = cc.map.try_borrow_mut() else {
-            crate::utils::cold(); // Should never happen
-            return;
+        // Take the action out of the map, but don't run it while the map is borrowed or kept alive by this call:
+        // the action may call clean() on another Cleanable of the same Cleaner (which must run that action right away)
+        // or drop the Cleaner itself (whose drop must run the remaining actions before returning)
+        let action = {
+            // Just return in case try_borrow_mut fails
+            let Ok(mut map) = cc.map.try_borrow_mut() else {
+                crate::utils::cold(); // Should never happen
+                return;
+            };
+            map.remove(self.key)
         };
-        let _ = map.remove(self.key);
+        drop(cc);
+
+        // Dropping the CleaningAction (if it's still there) runs it
+        drop(action);
     }
 }
 
